@@ -44,7 +44,8 @@ def _jobs(tier, seed):
         # every subset of productions / terminals marked dynamic (k <= 3: at most 64 combinations, sampled down)
         subsets = [(dp, dt) for n1 in range(k + 1) for dp in itertools.combinations(ops, n1) for n2 in range(k + 1) for dt in itertools.combinations(ops, n2)]
         for dp, dt in (subsets if len(subsets) <= 6 else r.sample(subsets, 6)):
-            jobs.append({"table": table, "order": order, "dynprods": list(dp), "dynterms": list(dt), "origin": "det" if i % 3 else "rand", "nexpr": p["nexpr"]})
+            jobs.append({"table": table, "order": order, "dynprods": list(dp), "dynterms": list(dt), "origin": "det" if i % 3 else "rand", "nexpr": p["nexpr"],
+                         "debug": i % 4 == 1})
         jobs.append({"table": table, "order": order, "dynprods": list(ops), "dynterms": list(ops), "origin": "det" if i % 3 else "rand", "nexpr": p["nexpr"], "prec": True})
         # only the operator TERMINALS marked dynamic, no production: the filter sees the shifts alone; rejecting every shift where a reduction is
         # possible encodes one flat left-associative level (round-3 seeded change C18-e: a dynamic terminal no longer made a conflict dynamic)
@@ -152,7 +153,10 @@ def worker(job):
         policies = [("accept", None)] + ([] if variant else [("reject", pid) for pid in opprods[:2]])
         for policy, rp in policies:
             rec = Recorder(real, policy, rp)
-            parser, err = real.build(parser_kind, text, dynamic_filter=rec, **kw)
+            # every fourth table: the filtered parser is built with debug=True (finding D49: the debug message of _call_dynamic_filter was
+            # assembled in the variables that are then handed to the filter)
+            dbg = {"debug": True} if job.get("debug") else {}
+            parser, err = real.build(parser_kind, text, dynamic_filter=rec, **kw, **dbg)
             if parser is None and not variant:
                 continue
             for toks in exprs:
@@ -166,7 +170,7 @@ def worker(job):
                     k, trees, complete = "exc:construction:" + (err or "")[:40], [], True
                 else:
                     k, trees, complete = _run(real, parser, w, parser_kind == "glr")
-                out.append({"name": "%s [%s%s,%s%s] @ %r" % (text.replace("\n", " "), parser_kind, "," + variant if variant else "", policy, "" if rp is None else ":%d" % rp, w),
+                out.append({"name": "%s [%s%s,%s%s%s] @ %r" % (text.replace("\n", " "), parser_kind, "," + variant if variant else "", policy, "" if rp is None else ":%d" % rp, ",debug=True" if dbg else "", w),
                             "gtext": text, "parser": parser_kind, "policy": policy, "rejectp": -1 if rp is None else rp, "input": w, "origin": job["origin"],
                             "dynprods": dyn, "dynterms": dterms, "calls": list(rec.calls), "kind": k, "trees": trees, "plainkind": pk, "plain": ptrees,
                             "complete": complete and pcomplete})
